@@ -164,6 +164,12 @@ class C20(Oracle):
                 if r is not None:
                     w.violation('C20', 'shared-' + r[0], st, r[1], culprit)
                     return
+        # -- the copy of an accumulator accumulates into itself, not into the original
+        if st.extra.get('acc_shared') is not None and st.outcome == 'ok':
+            w.violation('C20', 'shared-register', st,
+                        {'what': 'the copy of an object that is its own result register still names the ORIGINAL as register',
+                         'field': st.extra['acc_shared']}, culprit)
+            return
         # -- a snapshot taken with np.array(x) is the caller's own array
         if st.extra.get('export_aliases') is not None and st.outcome == 'ok':
             w.violation('C20', 'aliases-caller-array', st,
@@ -719,7 +725,9 @@ class C04(Oracle):
             # inexactness are certain; such DIRECT writes are judged when they arrive as integers
             # (Python ints, integer arrays, raw codes), never under wrap.
             sat = cfg['overflow'] == 'saturate'
-            big_ok = sat and sto.arith is None and (sto.raw or self.integer_carrier(st) or sto.src is not None or
+            # (as built, session 3: under wrap too - integer codes and integers reduce exactly modulo
+            #  2^n_word, and which side they left the range on is as certain as under saturate)
+            big_ok = sto.arith is None and (sto.raw or self.integer_carrier(st) or sto.src is not None or
                                                     (st.extra.get('val') is not None and
                                                      V.is_string_spec(st.extra['val']) and
                                                      not any(k_ in json.dumps(st.extra['val']) for k_ in ('"b"', '"h"'))))
